@@ -11,6 +11,11 @@ CHECKS = {
         text="Machine-checked theorems over the model of the selector filter, slashnormalize, getfspath and symlink-free path resolution: every selector the filter accepts (and every path handlers derive from it) resolves inside the root for every root spelling/working directory, and every documented climbing substring is rejected. The filter's pattern list is regenerated from handlers/base.py on every run, so the theorems are re-checked against the current source; the model functions are compared with the real ones exhaustively on short strings; an end-to-end search (audit hooks, three outside-worlds) looks for a concrete escaping request.",
         note="Trusts: Coq kernel + vm_compute; translator gen.py (pattern-list shape); in-process driver; kernel path resolution modelled as `resolve` for symlink-free trees; the handler chain above the filter (which handler appends which suffix) is covered by the end-to-end search and the derived-suffix theorem, not yet by a full handler-chain model.",
         ref="6/C01"),
+    "C02": dict(
+        technique="Coq proof (first-match, TLS strictness, totality and specific-before-catch-all for the shipped list regenerated from conf and class flags) + correspondence vs ProtocolMultiplexer.getProtocol + independent shape oracle + exhaustive live-socket sniff",
+        text="Theorems over the model of every protocol's canhandlerequest and of getProtocol, for all request lines, header blocks, TLS flags and protocol lists: the answer is the first acceptor of the list; an acceptor's secure flag equals the connection's TLS-ness; the shipped list (regenerated from conf/pygopherd.conf, flags from the class definitions) claims every line and never by a catch-all when a specific protocol matches. The model is compared with the real getProtocol on thousands of near-miss lines x lists x header blocks; the 0x16 sniff is exercised for all 256 first bytes on a live TLS-enabled server.",
+        note="Trusts: Coq kernel; translator (protocol list literal, boolean `secure` attributes); str.lower modelled on ASCII; the socket sniff clause is runtime behaviour decided by the exhaustive live run (partial for that clause).",
+        ref="6/C02"),
 }
 
 NOT_YET = {}
